@@ -39,7 +39,8 @@ def gen_ll1ish(rng):
     mode = rng.pick(G.HASH_MODES)
     names = ["N:" + x for x in sorted(set(vs + ts + [G.FOREIGN]))]
     return {"vars": vs, "terms": ts, "start": vs[0], "prods": prods, "valmode": "str" if mode == "plain" else "V",
-            "hash": G.assign_hashes(rng, names, mode), "hashmode": mode, "profile": "ll1ish", "ctor_sets": False}
+            "hash": G.assign_hashes(rng, names, mode), "hashmode": mode, "profile": "ll1ish", "ctor_sets": False,
+            "words_as_terminals": rng.weighted([(False, 5), (True, 3), ("mixed", 2)])}
 
 
 def _dollar(rng, c):
